@@ -15,7 +15,7 @@ import (
 // NewAgent corresponds to the empty open table (base case), so by induction every
 // call sequence on tables of at most vxSlots entries is covered.
 
-const vxSlots = 3
+const vxSlots = 4 // the fourth slot is used in the thorough tier only
 
 type vxSlot struct {
 	present  bool
@@ -50,6 +50,9 @@ func vxAgentState(rec *vxEvents) (*Agent, [vxSlots]vxSlot, bool) {
 	rec.agent = a
 	var slots [vxSlots]vxSlot
 	for i := 0; i < vxSlots; i++ {
+		if i >= vxK(3, 4) {
+			continue // absent
+		}
 		slots[i] = vxSlot{present: vxBool(), id: vxID(), deadline: vxTime()}
 		for j := 0; j < i; j++ {
 			vxAssume(!slots[i].present || !slots[j].present || slots[i].id != slots[j].id)
